@@ -12,12 +12,15 @@ THEOREMS = [
   ("C06_rbuf_no_fault", "rb_run_no_fault", "CC_Rbuf: no history faults"),
   ("C06_rbuf_balanced", "rb_new_destroy_balanced", "CC_Rbuf: destroy releases exactly the two blocks of the constructor"),
   ("C06_array_run", "arr_run_refines", "CC_Array: every history returns Ok (no fault) and keeps the ownership invariant"),
+  ("C06_array_new_total", "arr_new_total", "CC_Array: the constructor over EVERY machine-word capacity (since fix 9e3425e a capacity whose byte size overflows is refused; before, capacity 2^61 gave a 0-byte buffer)"),
   ("C06_array_destroy", "arr_destroy_spec", "CC_Array: destroy releases header and buffer, nothing else"),
   ("C06_array_derive", "derive_spec", "CC_Array: derived arrays own two fresh blocks; a refused request leaves the ledger as it was"),
   ("C06_deque_no_fault", "deque_step_no_fault", "CC_Deque: no step faults (add_at only in the branches the model classifies as sound)"),
   ("C06_deque_life", "deque_life_balanced", "CC_Deque: constructor, any history, destroy: the ledger is back where it started"),
   ("C06_deque_destroy_cb", "Deque:destroy_cb_spec", "CC_Deque: destroy_cb hands each held element to the callback once, in order"),
   ("C06_pqueue_no_fault", "pqT_fuel_suffices", "CC_PQueue: no fault of any kind (heapify's recursion included)"),
+  ("C06_pqueue_new_no_fault", "pq_new_no_fault", "CC_PQueue: the constructor never faults, whatever the capacity and factor"),
+  ("C06_pqueue_new_total", "pq_new_run_refines_total", "CC_PQueue: every history from the constructor, with no assumption on the capacity's byte size"),
   ("C06_pqueue_destroy", "pqT_run_destroy", "CC_PQueue: destroy after any history; destroy_cb calls the callback once per element"),
   ("C06_hashtable_no_fault", "ht_run_no_fault", "CC_HashTable: no history faults"),
   ("C06_hashtable_destroy", "ht_destroy_balanced", "CC_HashTable: destroy releases header, bucket array and every entry"),
